@@ -638,3 +638,141 @@ Proof.
     apply existsb_exists. exists k'. split; [|apply Z.eqb_refl].
     apply in_map_iff. exists (k', v). auto.
 Qed.
+
+(* ------------------------------------------------------------------------------------ *)
+(* several clients: the DC table is per-client state *)
+
+Lemma upd_length {A} (l : list A) i f : length (upd l i f) = length l.
+Proof. revert i; induction l as [|x l IH]; intros [|i]; cbn [upd length]; auto. Qed.
+
+Lemma upd_same {A} (l : list A) i f : nth_error (upd l i f) i = option_map f (nth_error l i).
+Proof. revert i; induction l as [|x l IH]; intros [|i]; cbn [upd nth_error option_map]; auto. Qed.
+
+Lemma upd_other {A} (l : list A) i j f : i <> j -> nth_error (upd l i f) j = nth_error l j.
+Proof.
+  revert i j; induction l as [|x l IH]; intros [|i] [|j] H; cbn [upd nth_error]; auto; congruence.
+Qed.
+
+(* two worlds look the same from client c *)
+Definition agree (c : nat) (w1 w2 : world) : Prop :=
+  length w1 = length w2 /\ nth_error w1 c = nth_error w2 c.
+
+Lemma agree_refl c w : agree c w w.
+Proof. split; reflexivity. Qed.
+
+Lemma nth_error_snoc {A} (l1 l2 : list A) x c :
+  length l1 = length l2 -> nth_error l1 c = nth_error l2 c ->
+  nth_error (l1 ++ [x]) c = nth_error (l2 ++ [x]) c.
+Proof.
+  intros Hl Hn. destruct (Nat.lt_ge_cases c (length l1)) as [H|H].
+  - rewrite !nth_error_app1 by lia. assumption.
+  - rewrite !nth_error_app2 by lia. now rewrite Hl.
+Qed.
+
+(* an operation that concerns c acts alike on worlds that agree on c, and answers alike *)
+Lemma cstep_agree d c w1 w2 o : concerns c o = true -> agree c w1 w2 ->
+  agree c (fst (cstep d w1 o)) (fst (cstep d w2 o)) /\
+  (match o with Process _ _ _ => snd (cstep d w1 o) = snd (cstep d w2 o) | _ => True end).
+Proof.
+  intros Hc [Hl Hn]. destruct o as [a|c' t|c' m i]; cbn [concerns] in Hc.
+  - cbn [cstep fst]. split; [|exact I]. split.
+    + rewrite !app_length. now rewrite Hl.
+    + now apply nth_error_snoc.
+  - apply Nat.eqb_eq in Hc. subst c'. cbn [cstep fst]. split; [|exact I]. split.
+    + now rewrite !upd_length.
+    + now rewrite !upd_same, Hn.
+  - apply Nat.eqb_eq in Hc. subst c'. cbn [cstep]. rewrite Hn.
+    destruct (nth_error w2 c) as [st|] eqn:E; cbn [fst snd]; [|split; [split; congruence|reflexivity]].
+    split; [|reflexivity].
+    destruct (process_err (snd st) m i) as [[a| |]| |]; try (split; congruence).
+    split; [now rewrite !upd_length|rewrite !upd_same; congruence].
+Qed.
+
+(* an operation on another client is invisible from c *)
+Lemma cstep_other d c w o : concerns c o = false -> agree c (fst (cstep d w o)) w.
+Proof.
+  destruct o as [a|c' t|c' m i]; cbn [concerns]; [discriminate| |]; intros Hc; apply Nat.eqb_neq in Hc.
+  - cbn [cstep fst]. split; [apply upd_length|now apply upd_other].
+  - cbn [cstep]. destruct (nth_error w c') as [st|]; cbn [fst]; [|apply agree_refl].
+    destruct (process_err (snd st) m i) as [[a| |]| |]; try apply agree_refl.
+    split; [apply upd_length|now apply upd_other].
+Qed.
+
+Lemma agree_trans c w1 w2 w3 : agree c w1 w2 -> agree c w2 w3 -> agree c w1 w3.
+Proof. intros [A B] [C D]. split; congruence. Qed.
+
+Lemma crun_restrict_agree d c h : forall w1 w2, agree c w1 w2 ->
+  agree c (crun d w1 h) (crun d w2 (restrict c h)).
+Proof.
+  induction h as [|o h IH]; intros w1 w2 Ha; [exact Ha|].
+  cbn [crun restrict filter]. destruct (concerns c o) eqn:Hc.
+  - cbn [crun]. apply IH. now apply cstep_agree.
+  - apply IH. eapply agree_trans; [apply cstep_other; exact Hc|exact Ha].
+Qed.
+
+(* non-interference: what client c answers after a history is what it answers after the same
+   history with every SetDCList / tryToProcessErr of the other clients removed *)
+Lemma observe_restrict d c h m i :
+  observe (crun d [] h) c m i = observe (crun d [] (restrict c h)) c m i.
+Proof.
+  unfold observe. destruct (crun_restrict_agree d c h [] [] (agree_refl c [])) as [_ ->]. reflexivity.
+Qed.
+
+(* closed form of a client's table: its own SetDCList arguments over the default list *)
+Lemma crun_existing d c h : forall w st, nth_error w c = Some st ->
+  exists a, nth_error (crun d w h) c = Some (a, own_sets c h ++ snd st).
+Proof.
+  induction h as [|o h IH]; intros w st Hn.
+  - exists (fst st). cbn [crun own_sets app]. now destruct st.
+  - cbn [crun]. destruct o as [a|c' t|c' m i]; cbn [cstep fst own_sets].
+    + apply IH. rewrite nth_error_app1; [assumption|]. apply nth_error_Some. congruence.
+    + destruct (Nat.eqb_spec c' c) as [->|Hne].
+      * destruct (IH (upd w c (set_dcs t)) (set_dcs t st)) as (a & Ha).
+        { now rewrite upd_same, Hn. }
+        exists a. rewrite Ha. cbn [set_dcs snd]. now rewrite app_assoc.
+      * apply IH. now rewrite upd_other.
+    + destruct (nth_error w c') as [st'|] eqn:E; cbn [fst]; [|now apply IH].
+      destruct (process_err (snd st') m i) as [[a| |]| |]; try now apply IH.
+      destruct (Nat.eq_dec c' c) as [->|Hne].
+      * destruct (IH (upd w c (set_addr a)) (set_addr a st)) as (a' & Ha).
+        { now rewrite upd_same, Hn. }
+        exists a'. exact Ha.
+      * apply IH. now rewrite upd_other.
+Qed.
+
+Lemma crun_app d w h1 h2 : crun d w (h1 ++ h2) = crun d (crun d w h1) h2.
+Proof. revert w; induction h1 as [|o h1 IH]; intros w; cbn [app crun]; auto. Qed.
+
+(* client c is the one created by [NewClient a0] after h1; whatever the other clients did
+   before or after, its answer to tryToProcessErr is computed from the default list and the
+   tables given to its own SetDCList calls *)
+Lemma observe_own d h1 a0 h2 c m i :
+  length (crun d [] h1) = c ->
+  observe (crun d [] (h1 ++ NewClient a0 :: h2)) c m i
+  = Some (process_err (own_sets c h2 ++ d) m i).
+Proof.
+  intros Hl. rewrite crun_app. cbn [crun cstep fst].
+  destruct (crun_existing d c h2 (crun d [] h1 ++ [(a0, d)]) (a0, d)) as (a & Ha).
+  { rewrite nth_error_app2 by lia. rewrite Hl, Nat.sub_diag. reflexivity. }
+  unfold observe. rewrite Ha. reflexivity.
+Qed.
+
+Lemma dc_lookup_app k t m :
+  dc_lookup k (t ++ m) = match dc_lookup k t with Some v => Some v | None => dc_lookup k m end.
+Proof.
+  induction t as [|[k' v'] t IH]; cbn [app dc_lookup]; [reflexivity|].
+  destruct (k =? k')%Z; [reflexivity|apply IH].
+Qed.
+
+Lemma observe_migrate d h1 a0 h2 c x :
+  length (crun d [] h1) = c ->
+  observe (crun d [] (h1 ++ NewClient a0 :: h2)) c s_phone_migrate_x (AInt x)
+  = Some (Ok (match dc_lookup x (own_sets c h2) with
+              | Some a => Switch a
+              | None => match dc_lookup x d with Some a => Switch a | None => NoSuchDC end
+              end)).
+Proof.
+  intros Hl. rewrite (observe_own d h1 a0 h2 c _ _ Hl). unfold process_err.
+  rewrite beq_refl, dc_lookup_app.
+  destruct (dc_lookup x (own_sets c h2)); [reflexivity|]. destruct (dc_lookup x d); reflexivity.
+Qed.
